@@ -1637,6 +1637,9 @@ class Interp:
             it += 1
             if it > bound:
                 if (q, ordn) in self.cfg.unroll:
+                    if getattr(self.cfg, 'unwind', False):
+                        # unwinding assertion: a unit that is counted as proved must show that no execution goes past the bound
+                        self.st.prove('unwind:%s#%d:no-iteration-beyond-%d' % (q.rsplit('.', 1)[-1], ordn, bound), False, kind='helper')
                     raise LoopCutEnd()     # iterations beyond the bound are not examined (first-iteration / bounded lemmas)
                 raise Unsupported('while loop without invariant exceeded %d iterations in %s' % (bound, q))
             try:
@@ -1665,6 +1668,8 @@ class Interp:
                     self.block(s.orelse, fr)
                     return
                 if j == bound:
+                    if getattr(self.cfg, 'unwind', False):
+                        self.st.prove('unwind:%s#%d:no-iteration-beyond-%d' % (q.rsplit('.', 1)[-1], ordn, bound), False, kind='helper')
                     raise PathAbort()
                 self.assign(s.target, seqlike.at(j), fr)
                 try:
